@@ -234,7 +234,7 @@ def committed_replays(mod, pid: str, out_lines: List[str]):
                 out_lines.append(f"VIOLATION property={pid} replay={f['replay']}")
         else:  # fixed: suppresses nothing, must stay repaired
             info["regressions_run"] += 1
-            if vs or known:
+            if vs:  # (violations attributed to a *listed* known finding on the same case do not count against the fix)
                 n_viol += 1
                 out_lines.append(f"VIOLATION property={pid} replay={f['replay']}")
     d = os.path.join(VERIF_DIR, "known", pid)
